@@ -46,6 +46,38 @@ class AnalysisError(Exception):
     pass
 
 
+_NORM = {}
+
+
+def norm(path):
+    """Drop turbofish generic-parameter groups from a def path (`Vec::<T, A>::push` -> `Vec::push`,
+    `ResolvedCall::<'i>::execute` -> `ResolvedCall::execute`); `::<impl Trait for X>::` is kept."""
+    r = _NORM.get(path)
+    if r is not None:
+        return r
+    out = []
+    i, n = 0, len(path)
+    while i < n:
+        if path.startswith("::<", i) and not path.startswith("::<impl ", i):
+            depth, j = 0, i + 2
+            while j < n:
+                ch = path[j]
+                if ch == "<":
+                    depth += 1
+                elif ch == ">" and path[j - 1] != "-":
+                    depth -= 1
+                    if depth == 0:
+                        break
+                j += 1
+            i = j + 1
+            continue
+        out.append(path[i])
+        i += 1
+    r = "".join(out)
+    _NORM[path] = r
+    return r
+
+
 def _run(cmd, **kw):
     return subprocess.run(cmd, stdout=subprocess.PIPE, stderr=subprocess.STDOUT, text=True, **kw)
 
@@ -185,12 +217,12 @@ class Call:
         self.bb = bb
         self.term = term
         self.callee = c
-        self.path = c["path"]
+        self.path = norm(c["path"])
         self.cid = c["id"]
         self.full = c.get("full", c["path"])
         self.kind = c.get("kind")
         self.local = c.get("local", False)
-        self.orig = c.get("orig")
+        self.orig = norm(c["orig"]) if c.get("orig") else None
         self.args = term["args"]
         self.atys = term.get("atys", [])
         self.dest = term["dest"]
@@ -211,7 +243,7 @@ class Fn:
     def __init__(self, o, crate):
         self.o = o
         self.crate = crate
-        self.path = o["path"]
+        self.path = norm(o["path"])
         self.id = o["id"]
         self.kind = o["kind"]
         self.vis = o["vis"]
@@ -514,7 +546,7 @@ class Facts:
             for im in self.impls:
                 for it in im["items"]:
                     if it["trait_item"]:
-                        m.setdefault(it["trait_item"], []).append(it["impl_id"])
+                        m.setdefault(norm(it["trait_item"]), []).append(it["impl_id"])
             self._trait_impls = m
         return self._trait_impls
 
@@ -540,7 +572,7 @@ class Facts:
                     if k and "fn" in k and k["fn"]["id"] in self.fns:
                         out.add(k["fn"]["id"])
                     if k and "fn" in k and k["fn"].get("kind") in ("virtual", "unresolved"):
-                        for t in tim.get(k["fn"]["path"], []):
+                        for t in tim.get(norm(k["fn"]["path"]), []):
                             if t in self.fns:
                                 out.add(t)
             for _, _, s in fn.stmts():
